@@ -231,3 +231,130 @@ def features(G) -> dict:
         "dup_suc": any(len(set(all_sucs(G, u))) != len(all_sucs(G, u)) for u in range(n)),
         "n": n, "m": m,
     }
+
+
+# ------------------------------------------------------------------ large graphs (size cliffs)
+# Deterministic families of graphs with thousands of nodes.  Every family is rooted, has edges INTO the entry
+# (normal and/or catch: "the method starts with a loop header / the first block is inside a try"), and has a
+# bounded DFS depth so that the recursive code of androguard stays below the recursion limit it sets
+# (androguard/decompiler/__init__.py: sys.setrecursionlimit(5000)).  A graph is named by (family, n, seed).
+def _kary_parent(i, k=3):
+    return (i - 1) // k
+
+
+def _shuffle_adj(rng, n, pairs, catch_pairs=()):
+    edges, catch = _empty(n)
+    rng.shuffle(pairs)
+    for u, v in pairs:
+        edges[u].append(v)
+    for u, v in catch_pairs:
+        catch[u].append(v)
+    return normalise((n, 0, edges, catch))
+
+
+def big_chain_loop(rng, n):
+    """one chain 0->1->...->n-1 (DFS depth n), last node and ~n/100 others jump back to the entry / earlier nodes"""
+    pairs = [(i, i + 1) for i in range(n - 1)] + [(n - 1, 0)]
+    for _ in range(max(3, n // 100)):
+        pairs.append((rng.randrange(1, n), 0))
+        a = rng.randrange(1, n)
+        pairs.append((a, rng.randrange(a + 1)))
+    return _shuffle_adj(rng, n, pairs)
+
+
+def big_tree_back_entry(rng, n):
+    """ternary tree (depth ~ log3 n); 200 nodes jump back to the entry, 300 random cross/back/forward edges"""
+    pairs = [(_kary_parent(i), i) for i in range(1, n)]
+    pairs += [(rng.randrange(1, n), 0) for _ in range(200)]
+    pairs += [(rng.randrange(n), rng.randrange(n)) for _ in range(300)]
+    return _shuffle_adj(rng, n, pairs)
+
+
+def big_comb_loop_entry(rng, n):
+    """the entry is a loop header with ~n/40 bodies: 0 -> head_k, each body a chain of 40 with a diamond, body end -> 0"""
+    L = 40
+    pairs = []
+    for h in range(1, n, L):
+        end = min(n, h + L) - 1
+        pairs.append((0, h))
+        pairs += [(i, i + 1) for i in range(h, end)]
+        if end - h >= 3:
+            pairs.append((h, h + 2))
+        pairs.append((end, 0))
+    return _shuffle_adj(rng, n, pairs)
+
+
+def big_catch_into_entry(rng, n):
+    """chain of depth min(n, 1500) with ternary bushes hanging off it; every 7th node has a catch edge to the entry
+    and to a common handler (the last node): the first block lies inside the try range"""
+    D = min(n - 1, 1500)
+    pairs = [(i, i + 1) for i in range(D - 1)]
+    for i in range(D, n - 1):
+        j = i - D
+        pairs.append((rng.randrange(D) if j < 200 else D + (j - 200) // 3, i))
+    pairs.append((D - 1, n - 1))
+    catch_pairs = []
+    for i in range(1, n - 1, 7):
+        catch_pairs += [(i, 0), (i, n - 1)]
+    return _shuffle_adj(rng, n, pairs, catch_pairs)
+
+
+def big_dense_tail(rng, n):
+    """ternary tree on the first n-60 nodes; the last 60 nodes form a dense random subgraph (p = 0.5, self loops)
+    entered from a leaf, whose nodes also jump back to the entry"""
+    t = n - 60
+    pairs = [(_kary_parent(i), i) for i in range(1, t)]
+    pairs.append((t - 1, t))
+    pairs += [(t + i, t + i + 1) for i in range(59)]
+    for a in range(t, n):
+        for b in range(t, n):
+            if rng.random() < 0.5:
+                pairs.append((a, b))
+        if rng.random() < 0.3:
+            pairs.append((a, 0))
+    return _shuffle_adj(rng, n, pairs)
+
+
+def big_deep_bushy(rng, n):
+    """spine of depth min(n, 2000) with small bushes on random spine nodes; spine end and 50 bush nodes jump to the
+    entry, 100 random back edges along the spine (long ancestor chains for path compression)"""
+    D = min(n, 2000)
+    pairs = [(i, i + 1) for i in range(D - 1)] + [(D - 1, 0)]
+    for i in range(D, n):
+        pairs.append((rng.randrange(D) if (i - D) % 4 == 0 else i - 1, i))
+    pairs += [(rng.randrange(1, n), 0) for _ in range(50)]
+    for _ in range(100):
+        a = rng.randrange(1, D)
+        pairs.append((a, rng.randrange(a)))
+    return _shuffle_adj(rng, n, pairs)
+
+
+LARGE_FAMILIES = {
+    "chain_loop": big_chain_loop, "tree_back_entry": big_tree_back_entry, "comb_loop_entry": big_comb_loop_entry,
+    "catch_into_entry": big_catch_into_entry, "dense_tail": big_dense_tail, "deep_bushy": big_deep_bushy,
+}
+
+
+def large_graph(family: str, n: int, seed):
+    """the graph named (family, n, seed); deterministic"""
+    return LARGE_FAMILIES[family](random.Random("large/%s/%d/%s" % (family, n, seed)), n)
+
+
+def dfs_depth(G) -> int:
+    """maximal stack depth of the DFS from the entry in all_sucs order (= recursion depth of the recursive code)"""
+    entry = G[1]
+    seen = {entry}
+    stack = [(entry, iter(all_sucs(G, entry)))]
+    best = 1
+    while stack:
+        u, it = stack[-1]
+        for v in it:
+            if v not in seen:
+                seen.add(v)
+                stack.append((v, iter(all_sucs(G, v))))
+                if len(stack) > best:
+                    best = len(stack)
+                break
+        else:
+            stack.pop()
+    return best
